@@ -70,7 +70,7 @@ class Lexer:
             ch = self._current()
 
             # Whitespace
-            if ch in " \t\r\n":
+            if ch in " \t\r\n\x0b\x0c\xa0\ufeff\u2028\u2029":
                 self._advance()
                 continue
 
@@ -78,7 +78,7 @@ class Lexer:
             if ch == "/" and self._peek() == "/":
                 self._advance()  # /
                 self._advance()  # /
-                while self._current() and self._current() != "\n":
+                while self._current() and self._current() not in "\n\r\u2028\u2029":
                     self._advance()
                 continue
 
